@@ -1,5 +1,5 @@
 """C02 - Fq/Fr arithmetic exact and canonical (partial claim: constants + zero special cases)."""
-from .. import guards, consts, nowrap
+from .. import guards, consts, nowrap, fieldlayer
 
 EXPL = ('Partial claim. Exactness of add/sub/mul/Montgomery reduction for all operands (including the 2^-64-probability '
         'carry tails) is value-level and NOT decided. Decided: (R-CONST) every constant the arithmetic depends on has '
@@ -25,6 +25,8 @@ def run(ctx):
     from .. import buildmodel as bm
     ctx.add_extra_unit(os.path.join(bm.VERIF, 'fixtures', 'instantiate_all.cpp'))
     for cfg, prog in ctx.programs().items():
+        fl = fieldlayer.rule_field_layer(ctx, cfg, prog)
+        ctx.floor('R-FIELDLAYER representation writes inside the field layer[%s]' % cfg, fl, 10)
         n = consts.rule_field_constants(ctx, cfg, prog)
         guards.g237_field_zero_cases(ctx, cfg, prog)
         guards.canon_tables(ctx, cfg, prog)
